@@ -101,7 +101,8 @@ Definition validate_gen (g : gen_in) (d : doc) : list string :=
           (* the apk's own element may have been replaced by the imported one; some
              element must still carry its name.  When it does not and the apk's own id
              coincides with another apk's, that other apk's replacePackage (which
-             removes by id) or the de-duplication took it: the collision finding *)
+             removes by id) or the de-duplication took it: the collision defect C11-F1 (fixed by
+             7c2586e, own ids are numbered now; the tag is armed and no longer listed) *)
           if existsb (fun p => String.eqb (p_name p) (a_name a)) (d_pkgs d) then []
           else if Nat.ltb 1 (count_true (fun b => String.eqb (apk_id b) (apk_id a)) (g_apks g))
                then ["viol:apk-element-missing/id-collision"]
